@@ -73,7 +73,7 @@ def finding_key(ob, rec):
     return ob
 
 
-def run_configs(PID, which, configs, tier, seed, t0, level='model_checking', extra_obs=(), assumptions=(), explanation=None, real_deck=True, amplify=None, expected=()):
+def run_configs(PID, which, configs, tier, seed, t0, level='model_checking', extra_obs=(), assumptions=(), explanation=None, real_deck=True, amplify=None, expected=(), collect_only=False):
     """configs: list of (profile, n, empty_ok)"""
     src = snapshot()
     bins = replay_build(src)
@@ -141,4 +141,6 @@ def run_configs(PID, which, configs, tier, seed, t0, level='model_checking', ext
     except Inconclusive as e:
         obs.append(Obligation('setup', 'inconclusive', str(e)[-1500:]))
         cov = dict(states=1, transitions=1, traces_validated_against_impl=0, samples=['setup failed'], explanation=explanation or 'setup failed')
+    if collect_only:
+        return obs, cov
     finish(PID, tier, level, obs, cov, list(assumptions), t0, seed)
